@@ -114,6 +114,52 @@ def rect_task(cone, W, slack_kind, tier):
     return r
 
 
+def rect_symW_task(tier):
+    """thorough: the cone matrix itself symbolic (2×2, any real entries): real is_dominated versus the closed form with
+    sign-dependent box minima (If-terms) — covers *all* two-facet 2-D cones at once (NRA, bilinear)"""
+    cr, uu, vo, oc = _mods()
+    m = K = 2
+    proxy = NpProxy()
+    ex = Explorer("rect_is_dominated[symbolic 2x2 cone]", query_timeout_ms=120000)
+
+    def body(ctx):
+        Ws = ctx.reals("w", K, m)
+        order = make_order(Ws)
+        l1, u1, l2, u2 = (ctx.reals(n, m) for n in ("l1", "u1", "l2", "u2"))
+        s = ctx.reals("s", m)
+        ctx.assume([l1 <= u1, l2 <= u2])
+        R1 = cr.RectangularConfidenceRegion(m, l1, u1)
+        R2 = cr.RectangularConfidenceRegion(m, l2, u2)
+        ret = bool(cr.confidence_region_is_dominated(order, R1, R2, s))
+        ctx.witness(str(ret))
+        wz, L1, U1, L2, U2, S = zs(Ws), zs(l1), zs(u1), zs(l2), zs(u2), zs(s)
+        conj = []
+        for n in range(K):
+            acc = sym.rv(0)
+            for i in range(m):
+                w = wz[n][i]
+                acc = acc + z3.If(w >= 0, w * (L2[i] - U1[i]), w * (U2[i] - L1[i])) + w * S[i]
+            conj.append(acc >= 0)
+        spec = z3.And(*conj)
+        mdl = ctx.prove("ret==closed_form (symbolic cone)", spec if ret else z3.Not(spec))
+        if mdl is not None:
+            from symx.explore import model_value
+            Wc = [[float(model_value(mdl, e)) for e in row] for row in wz]
+            vals = {k: [model_value(mdl, e) for e in v] for k, v in (("l1", L1), ("u1", U1), ("l2", L2), ("u2", U2), ("s", S))}
+            ex.candidate("ret==closed_form (symbolic cone)", {"kind": "rect", "cone": "symbolic", "W": Wc,
+                                                               **{k: frac_json(v) for k, v in vals.items()}, "symbolic_ret": ret},
+                         {"region": "rect", "cone": "symbolic2x2"})
+            return
+        ctx.sample({"ret": ret, "decisions": len(ctx.decisions)})
+
+    with patched((cr, {"np": proxy}), (uu, {"np": proxy}), (vo, {"np": proxy}), (oc, {"np": proxy})):
+        ex.run(body)
+    ex.finalize(replay)
+    r = ex.result()
+    r["config"] = {"cone": "symbolic 2x2", "region": "rect"}
+    return r
+
+
 def _oracle_lemma(W):
     """closed form ⇒ semantic, and ¬closed form ⇒ the sign-selected vertex pair violates"""
     m = W.shape[1]
@@ -283,6 +329,7 @@ def tasks(tier, seed):
                        "args": {"cone": cone, "W": W.tolist(), "slack_kind": sk, "tier": tier},
                        "weight": 10 if m == 3 else 1})
     ts.append({"id": "slack_shape_guard", "fn": "shape_task", "args": {"tier": tier}})
+    ts.append({"id": "rect[symbolic 2x2 cone]", "fn": "rect_symW_task", "args": {"tier": tier}, "weight": 500})
     try:
         from checks import c09_ell
         ts.extend(c09_ell.tasks(tier, seed))
@@ -301,7 +348,7 @@ def meta(tier):
                               cr.EllipsoidalConfidenceRegion.is_dominated,
                               uu.hyperrectangle_get_vertices, vo.PolyhedralConeOrder.dominates,
                               oc.OrderingCone.is_inside),
-        "bounds": {"m": "2..3", "K": "<=6", "cones": [c for c, _ in cone_set(tier)],
+        "bounds": {"m": "2..3", "K": "<=6", "cones": [c for c, _ in cone_set(tier)] + ["fully symbolic 2x2 cone matrix (rectangles)"],
                    "regions": "all rectangles lower<=upper (degenerate edges included), all real slacks"},
         "assumptions": ["floats are encoded as exact reals (binary64 rounding outside the claim)",
                         "cone matrices are the exact rationals of the floats VOPy's constructors return"],
